@@ -3,7 +3,8 @@ From SC Require Import Lib.Prelude Lib.Int Lib.Host Model.Timelock Model.Timeloc
 
 (* ---------------- observations ---------------- *)
 (* every getter of the timelock for one operation id *)
-Record opview := OV { v_ledger : Z; v_state : opstate; v_exists : bool; v_pending : bool; v_ready : bool; v_done : bool }.
+(* [v_trap]: some getter of this id trapped (then the other fields are placeholders) *)
+Record opview := OV { v_ledger : Z; v_state : opstate; v_exists : bool; v_pending : bool; v_ready : bool; v_done : bool; v_trap : bool }.
 (* after every call: the ledger, get_min_delay (None = it fails), all getters for all ids
    of the universe, the target mock's counter per argument tag *)
 Record obs := Obs { o_now : Z; o_min : option Z; o_ops : list (id * opview); o_runs : list (N * Z) }.
@@ -28,7 +29,8 @@ Definition outcome_eqb (a b : outcome) : bool :=
   match a, b with Ok x, Ok y => on_eqb x y | Fail, Fail => true | _, _ => false end.
 Definition opview_eqb (a b : opview) : bool :=
   (v_ledger a =? v_ledger b) && opstate_eqb (v_state a) (v_state b) && Bool.eqb (v_exists a) (v_exists b)
-  && Bool.eqb (v_pending a) (v_pending b) && Bool.eqb (v_ready a) (v_ready b) && Bool.eqb (v_done a) (v_done b).
+  && Bool.eqb (v_pending a) (v_pending b) && Bool.eqb (v_ready a) (v_ready b) && Bool.eqb (v_done a) (v_done b)
+  && Bool.eqb (v_trap a) (v_trap b).
 Fixpoint list_eqb {A} (f : A -> A -> bool) (a b : list A) : bool :=
   match a, b with
   | [], [] => true
@@ -57,7 +59,7 @@ Definition tbl_ok (tbl : list (op * id)) : bool :=
 (* ---------------- what the model shows ---------------- *)
 Definition view (t : tl) (i : id) : opview :=
   OV (mark t i) (state_of t i) (operation_exists t i) (is_operation_pending t i)
-     (is_operation_ready t i) (is_operation_done t i).
+     (is_operation_ready t i) (is_operation_done t i) false.
 Definition observe (ids : list id) (tags : list N) (s : state) : obs :=
   Obs (now (tls s)) (min_delay (tls s)) (map (fun i => (i, view (tls s) i)) ids)
       (map (fun a => (a, run_count s a)) tags).
@@ -84,7 +86,7 @@ Definition diff (t : trace) : N :=
 (* the reported state and the four boolean getters of one id agree with the reported
    ready ledger and the current ledger *)
 Definition view_coherent (now : Z) (v : opview) : bool :=
-  in_u32 (v_ledger v)
+  negb (v_trap v) && in_u32 (v_ledger v)
   && opstate_eqb (v_state v)
        (if v_ledger v =? 0 then Unset else if v_ledger v =? 1 then Done
         else if now <? v_ledger v then Waiting else Ready)
@@ -205,9 +207,20 @@ Definition obs0_ok (h : header) : bool :=
   && forallb (fun p => v_ledger (snd p) =? 0) (o_ops (h_obs0 h))
   && forallb (fun p => snd p =? 0) (o_runs (h_obs0 h)).
 
+(* the header is well-formed: every id of the measured table, every predecessor and every argument
+   tag of its operations is observed; the first observation lists exactly the declared ids / tags
+   (every later observation must list the same keys: [same_keys] in [obs_step_ok]) *)
+Definition mem_n (x : N) (l : list N) : bool := existsb (N.eqb x) l.
+Definition tbl_in (ids : list id) (tags : list N) (tbl : list (op * id)) : bool :=
+  forallb (fun p => mem_n (snd p) ids && (N.eqb (pred (fst p)) 0 || mem_n (pred (fst p)) ids) && mem_n (args (fst p)) tags) tbl.
+Definition hdr_ok (h : header) : bool :=
+  tbl_in (h_ids h) (h_tags h) (h_tbl h)
+  && list_eqb N.eqb (map fst (o_ops (h_obs0 h))) (h_ids h)
+  && list_eqb N.eqb (map fst (o_runs (h_obs0 h))) (h_tags h).
+
 Definition monitor (t : trace) : N :=
   let '(h, evs) := t in
-  if tbl_ok (h_tbl h) && obs0_ok h
+  if tbl_ok (h_tbl h) && hdr_ok h && obs0_ok h
   then mon_from (hash_of (h_tbl h)) (MS (h_obs0 h) []) evs 0%N
   else 1%N.
 
@@ -230,7 +243,7 @@ Definition ex_op2 := Op 1 0 2 1 0.          (* predecessor = id of ex_op *)
 Definition ex_view (now r : Z) : opview :=
   let st := state_of_mark now r in
   OV r st (negb (opstate_eqb st Unset)) (opstate_eqb st Waiting || opstate_eqb st Ready)
-     (opstate_eqb st Ready) (opstate_eqb st Done).
+     (opstate_eqb st Ready) (opstate_eqb st Done) false.
 (* coherent observation: ledger, min delay, stored ledgers of ids 1 and 2, runs of tags 1 and 2 *)
 Definition ex_obs (now : Z) (mn : option Z) (r1 r2 n1 n2 : Z) : obs :=
   Obs now mn [(1%N, ex_view now r1); (2%N, ex_view now r2)] [(1%N, n1); (2%N, n2)].
@@ -308,5 +321,22 @@ Proof. vm_compute. reflexivity. Qed.
 (* reported state incoherent with the stored ledger (Ready one ledger early) *)
 Example ex_bad_reported_state :
   monitor (ex_hdr, ex_prefix ++ [(Advance 4, OkN,
-      Obs 14 (Some 5) [(1%N, OV 15 Ready true true true false); (2%N, ex_view 14 15)] [(1%N, 0); (2%N, 0)])]) = 4%N.
+      Obs 14 (Some 5) [(1%N, OV 15 Ready true true true false false); (2%N, ex_view 14 15)] [(1%N, 0); (2%N, 0)])]) = 4%N.
+Proof. vm_compute. reflexivity. Qed.
+
+(* a getter trapped (reported through the trap flag although the placeholder values look legitimate) *)
+Example ex_bad_trapping_getter :
+  monitor (ex_hdr, [(SetMinDelay 5, OkN,
+      Obs 10 (Some 5) [(1%N, OV 0 Unset false false false false true); (2%N, ex_view 10 0)] [(1%N, 0); (2%N, 0)])]) = 1%N.
+Proof. vm_compute. reflexivity. Qed.
+(* reviewer's K6: the executed operation's argument tag / a table id is not among the observed keys *)
+Example ex_bad_unobserved_tag :
+  monitor (Hdr 10 [1%N; 2%N] [1%N; 2%N] [(Op 1 0 9 0 0, 1%N); (ex_op2, 2%N)] 0 1 (ex_obs 10 None 0 0 0 0),
+    [(SetMinDelay 0, OkN, ex_obs 10 (Some 0) 0 0 0 0);
+     (Schedule (Op 1 0 9 0 0) 0, OkI 1, ex_obs 10 (Some 0) 10 0 0 0);
+     (Execute (Op 1 0 9 0 0) true, OkN, ex_obs 10 (Some 0) 1 0 0 0)]) = 1%N.
+Proof. vm_compute. reflexivity. Qed.
+Example ex_bad_unobserved_id :
+  monitor (Hdr 10 [1%N] [1%N; 2%N] [(ex_op, 1%N); (ex_op2, 2%N)] 0 1
+             (Obs 10 None [(1%N, ex_view 10 0)] [(1%N, 0); (2%N, 0)]), []) = 1%N.
 Proof. vm_compute. reflexivity. Qed.
